@@ -130,7 +130,10 @@ func propC15(c *Ctx, r *Report) {
 
 	// who may call the one-time mutators
 	r.rule("C15/one-time-callers", 3, "one-time mutators are called from their scheduled site only")
-	for _, spec := range []struct{ fn, caller string; n int }{
+	for _, spec := range []struct {
+		fn, caller string
+		n          int
+	}{
 		{"node.Pegnetd.MintTokensForBalance", "node.Pegnetd.SyncBlock", 1},
 		{"node.Pegnetd.NullifyMintedTokens", "node.Pegnetd.SyncBlock", 1},
 		{"node.Pegnetd.NullifyBurnAddress", "node.Pegnetd.DBlockSync", 2},
